@@ -1,18 +1,65 @@
+"""Regenerate /verif/MANIFEST.json from the table below (one entry per claimed
+property) and properties.jsonl (everything else goes to not_applicable)."""
 import json
-checks=[]
-def add(pid, cat, text, note, tech, ref):
-    checks.append({"property_id":pid,"quick_cmd":f"./check {pid} --tier quick","thorough_cmd":f"./check {pid} --tier thorough","evidence_file":f"/verif/evidence/{pid}.json","replay_cmd_template":f"./check {pid} --replay {{path}}","engine":"pyvc","level_claimed":{"category":cat,"text":text,"design_ref":ref},"level_note":note,"technique":tech})
-add("C14","proof","Deductive: VCs generated from the real bodies of all 13 ChildrenList methods and Node.addchild/children.setter/detach/replace_with/pop_all_children on every run, for all list lengths, indices and an arbitrary validation predicate; every obligation (representation invariant, frames, exceptional frames, loop invariants) discharged by z3.","Trusted: the pyvc generator, z3, the list models (cross-checked against CPython), Node.update_signal assumed to change no link/list, exception-message expressions not evaluated, slice indices and Call.replace_named_arg outside the contract.","contract-based deductive verification: ast->VC generator (pyvc) + z3/cvc5, sidecar contracts, counter-model replay on real code","DESIGN.md §4 C14")
-add("C27","proof","Deductive: the real body of ModuleManager.sort_modules (5 loops, dict/set mutation, for-else) is verified for every dict[str,set[str]] by loop invariants (seen-set rule for dict/set iteration) and a variant; result is a permutation of the keys, input unmodified, known dependencies first under a ghost rank function (acyclicity), complete list for cyclic inputs.","Trusted: pyvc, z3/cvc5, dict/set/list models, copy.deepcopy assumed contract, module names as atoms, the Lean-checked minimum lemma (lemmas/MinElem.lean) assumed at loop exhaustion, input value sets pairwise distinct objects.","contract-based deductive verification: ast->VC generator (pyvc) + z3/cvc5, loop invariants, Lean lemma; bounded search only as replay/fallback","DESIGN.md §4 C27")
-props=[json.loads(l)['id'] for l in open('/verif/properties.jsonl')]
-claimed={c['property_id'] for c in checks}
-na_reasons={
- "C01":"end-to-end behavioural equality of two Fortran texts through an external parser and a compiler: no per-function contract within reach states it (DESIGN.md §5)",
- "C03":"fixed point of write∘read∘write through the external parser; a contract can state it but nothing here discharges it (DESIGN.md §5)",
+
+TECH = ("contract-based deductive verification: ast->VC generator (pyvc) + "
+        "z3/cvc5 on the real function bodies, sidecar contracts, "
+        "counter-model replay on the real code")
+
+CLAIMS = {
+ "C14": ("proof",
+  "Deductive: VCs generated from the real bodies of all 13 ChildrenList methods and Node.addchild/children.setter/detach/replace_with/pop_all_children on every run, for all list lengths, indices and an arbitrary validation predicate; every obligation (representation invariant, frames, exceptional frames, loop invariants) discharged by z3.",
+  "Trusted: the pyvc generator, z3, the list models (cross-checked against CPython), Node.update_signal assumed to change no link/list, exception-message expressions not evaluated, slice indices and Call.replace_named_arg outside the contract.",
+  TECH),
+ "C27": ("proof",
+  "Deductive: the real body of ModuleManager.sort_modules (5 loops, dict/set mutation, for-else) is verified for every dict[str,set[str]] by loop invariants (seen-set rule for dict/set iteration) and a variant; result is a permutation of the keys, input unmodified, known dependencies first under a ghost rank function (acyclicity), complete list for cyclic inputs.",
+  "Trusted: pyvc, z3/cvc5, dict/set/list models, copy.deepcopy assumed contract, module names as atoms, the Lean-checked minimum lemma (lemmas/MinElem.lean) assumed at loop exhaustion, input value sets pairwise distinct objects.",
+  TECH + "; loop invariants, Lean lemma; bounded search only as replay/fallback"),
+ "C18": ("proof",
+  "Deductive (z3 strings): find_break_point for every string/window/key list (result inside the window, at a key, priority order, raises iff no key); _get_line_type against the free-form comment/sentinel classification (regexes translated to z3 regex); FortLineLength.process for every text and every limit 40..132: every output line within the limit, text without long lines returned unchanged (hence idempotence by the stated lemma), wrapping loop terminates, no exception except InternalError and only when a line must be wrapped. Two genuine defects are recorded as known findings (no break key -> InternalError; '&' continuation inside a trailing comment).",
+  "Trusted: pyvc, z3 seq theory, models of lstrip/rfind/split/slices, regex translation. NOT proved: that joined continuation lines give back the statement text and the lexical context of a break (only a bounded run-time contract on the real code, labelled bounded in the evidence).",
+  TECH + "; string VCs with engine-side instantiation of the defining facts of two ghost predicates; bounded run-time contract as stand-in for content preservation"),
 }
-na=[{"property_id":p,"reason":na_reasons.get(p,"not yet built in this round: contracts planned in DESIGN.md §4, no check registered yet")} for p in props if p not in claimed]
-m={"version":1,"setup_cmd":"./setup.sh","hooks":{"guard":"SVALAT_PSYCLONE_VERIF","enable":"no hook commits: contracts are sidecar files under /verif/contracts; checks export SVALAT_PSYCLONE_VERIF=1 for uniformity","baseline_off_cmd":"cd /repo && /venv/bin/python -m pytest -q -p no:cacheprovider --timeout=900 --continue-on-collection-errors","source_commits":[],"add_only":True},
- "engines":[{"name":"pyvc","path":"/verif/pyvc","serves_properties":sorted(claimed),"kind_free_text":"self-built contract-based deductive verifier for a Python subset: symbolic execution of the real function ASTs read from /repo at check time, sidecar contracts (requires/ensures/raises/on_raise/modifies/loop invariants/ghost parameters/lemmas), VCs discharged by z3 5.1 (cvc5 for z3 unknowns), bounded-instantiation counter-model search + replay on the real code"}],
- "checks":checks,"not_applicable":na,
- "notes":"See DESIGN.md. fix: commits in /repo are listed in known_findings.json."}
-json.dump(m,open('/verif/MANIFEST.json','w'),indent=1)
+
+NA = {
+ "C01": "end-to-end behavioural equality of two Fortran texts through an external parser and a compiler: no per-function contract within reach states it (DESIGN.md §5)",
+ "C03": "fixed point of write∘read∘write through the external parser; a contract can state it but nothing here discharges it (DESIGN.md §5)",
+}
+DEFAULT_NA = ("not yet built: contracts planned in DESIGN.md §4, no check "
+              "registered yet")
+
+
+def main():
+    checks = []
+    for pid, (cat, text, note, tech) in sorted(CLAIMS.items()):
+        checks.append({
+            "property_id": pid,
+            "quick_cmd": f"./check {pid} --tier quick",
+            "thorough_cmd": f"./check {pid} --tier thorough",
+            "evidence_file": f"/verif/evidence/{pid}.json",
+            "replay_cmd_template": f"./check {pid} --replay {{path}}",
+            "engine": "pyvc",
+            "level_claimed": {"category": cat, "text": text,
+                              "design_ref": f"DESIGN.md §4 {pid}"},
+            "level_note": note, "technique": tech})
+    props = [json.loads(l)["id"] for l in open("/verif/properties.jsonl")]
+    na = [{"property_id": p, "reason": NA.get(p, DEFAULT_NA)}
+          for p in props if p not in CLAIMS]
+    m = {"version": 1, "setup_cmd": "./setup.sh",
+         "hooks": {"guard": "SVALAT_PSYCLONE_VERIF",
+                   "enable": "no hook commits: contracts are sidecar files "
+                             "under /verif/contracts; checks export "
+                             "SVALAT_PSYCLONE_VERIF=1 for uniformity",
+                   "baseline_off_cmd": "cd /repo && /venv/bin/python -m pytest -q -p no:cacheprovider --timeout=900 --continue-on-collection-errors",
+                   "source_commits": [], "add_only": True},
+         "engines": [{"name": "pyvc", "path": "/verif/pyvc",
+                      "serves_properties": sorted(CLAIMS),
+                      "kind_free_text": "self-built contract-based deductive verifier for a Python subset: symbolic execution of the real function ASTs read from /repo at check time, sidecar contracts (requires/ensures/raises/on_raise/modifies/loop invariants/ghost parameters/lemmas), VCs discharged by z3 5.1 (cvc5 for z3 unknowns), bounded-instantiation counter-model search + replay on the real code"}],
+         "checks": checks, "not_applicable": na,
+         "notes": "See DESIGN.md. fix: commits in /repo and open findings are listed in known_findings.json."}
+    json.dump(m, open("/verif/MANIFEST.json", "w"), indent=1)
+    print("claimed:", sorted(CLAIMS), "NA:", len(na))
+
+
+if __name__ == "__main__":
+    main()
